@@ -20,7 +20,12 @@ from props import c16
 SPEC = {
     "lean_modules": ["Honeycomb.Props.C17"],
     "gen": ["anchors"],
-    "required_theorems": [],
+    "required_theorems": [
+        "C17_classify_frame", "C17_classify_WF", "C17_classify_ok_all_anchored",
+        "C17_markCurve_terminates", "C17_markCurve_ok_of_closed", "C17_markCurve_err_leaves_boundary",
+        "C17_vertex_merge_comm", "C17_vertex_merge_idem", "C17_vertex_merge_assoc", "C17_vertex_merge_lower_dim",
+        "C17_vertex_merge_fails_iff", "C17_edge_merge_fails_iff", "C17_face_merge_fails_iff",
+    ],
     "trusted_base": [
         "Lean 4.33 kernel; axioms propext, Classical.choice, Quot.sound only",
         "tools/gen_lean.py `anchors` (regex-level translator of the merge arms / From conversions of utils/anchors.rs into "
@@ -39,6 +44,17 @@ SPEC = {
     "rule": "quick: ~70 geometries (same families as C16) x clip {left, right, none} x points of interest {all, some, none}; "
             "+ loops inside one cell; + classify correspondence on hand-made anchored maps. thorough: x8.",
     "not_proved": [
+        "C17_classify_asserts_never_fire: that the three debug_assert!s of classify_capture cannot fail on capture outputs "
+        "(C17_classify_ok_all_anchored is the statement WITH the assertions, as in the debug build the harness runs). It is "
+        "false on arbitrary well-formed maps: a dangling edge inside a face leaves its tip vertex unanchored and the debug "
+        "assertion panics (both drivers agree, stream `small maps`); validated on every generated capture (no panic)",
+        "one surface id per set of faces connected without crossing a curve / distinct ids across curves; boundary "
+        "vertices end with Node or Curve and interior ones with Surface: evaluated by the oracle on the real implementation",
+        "termination of the second loop (`while let` over unmarked boundaries) and of the face queue: the model runs them "
+        "on a fuel and reports exhaustion as `diverges`; never observed (all correspondence cases terminate on both sides)",
+        "the lazily evaluated first loop re-reads VertexAnchor after earlier mark_curve calls: a Curve-anchored vertex with a "
+        "larger id than the node starts a new curve (modelled, agrees with the implementation on hand-made maps; harmless "
+        "on capture outputs where point-of-interest vertices have the largest ids)",
         "that capture_geometry anchors each point of interest to a Node vertex at the right place and that the clipped "
         "mesh's free boundary is the input boundary (geometry): validated by the oracle on the real implementation",
     ],
@@ -342,7 +358,19 @@ def sew_cases(rng, count):
         for _ in range(rng.randint(2, 10)):
             kind = rng.choice("vvef")
             lines.append(f"wanchor {kind} {rng.randint(1, n)} {rand_anchor(rng, kind)}")
-        for _ in range(rng.randint(2, 8)):
+        glued = [(1 + 4 * (i + nx * j) + 1, 1 + 4 * (i + nx * j) + 1 + 6) for i in range(nx - 1) for j in range(ny)] + \
+                [(1 + 4 * (i + nx * j) + 2, 1 + 4 * (i + nx * j) + 4 * nx) for i in range(nx) for j in range(ny - 1)]
+        for _ in range(rng.randint(1, 3)):
+            a, b = rng.choice(glued)
+            if rng.random() < 0.5:
+                a, b = b, a
+            lines.append(f"unsew 2 {a}")
+            for _ in range(rng.randint(0, 3)):
+                kind = rng.choice("vef")
+                lines.append(f"wanchor {kind} {rng.choice([a, b, a - 1 if a > 1 else a, b + 1 if b < n else b])} {rng.choice({'v': 'NCSB', 'e': 'CSB', 'f': 'SB'}[kind])}{rng.randint(0, 1)}")
+            lines.append(f"sew 2 {a} {b}")
+            lines.append("snap")
+        for _ in range(rng.randint(1, 5)):
             d = rng.randint(1, n)
             op = rng.choice(["unsew 2", "unsew 1", "sew 2", "sew 1", "wanchor"])
             if op == "wanchor":
